@@ -49,7 +49,19 @@ namespace cnl {
         [[nodiscard]] constexpr auto operator()(Lhs const& lhs, Rhs const& rhs) const
                 -> decltype(lhs / rhs)
         {
-            return (((lhs < 0) ^ (rhs < 0)) ? lhs - (rhs / 2) : lhs + (rhs / 2)) / rhs;
+            // Round the truncated quotient away from zero when twice the remainder
+            // reaches the divisor; the comparisons are arranged so that no intermediate
+            // exceeds the range of the operands (adding half the divisor to lhs can).
+            using result = decltype(lhs / rhs);
+            auto const quotient = static_cast<result>(lhs / rhs);
+            auto const remainder = lhs % rhs;
+            auto const away = (remainder < 0)
+                                    ? ((rhs < 0) ? remainder <= rhs - remainder : -remainder >= rhs + remainder)
+                                    : ((rhs < 0) ? rhs + remainder >= -remainder : remainder >= rhs - remainder);
+            return (remainder != 0 && away)
+                         ? (((lhs < 0) != (rhs < 0)) ? static_cast<result>(quotient - 1)
+                                                     : static_cast<result>(quotient + 1))
+                         : quotient;
         }
     };
 
